@@ -102,7 +102,7 @@ fn check_d<const D: usize>(c: &Case, ctx: &mut Ctx) -> Result<(), Failure> {
 
 pub fn check(c: &Case, ctx: &mut Ctx) -> Result<(), Failure> {
     let g = &c.g;
-    if g.nedges() == 0 || g.nedges() > 12 || !(1..=6).contains(&g.d) || g.weights.iter().any(|w| !(w.is_finite() && *w > 0.0)) {
+    if g.nedges() == 0 || g.nedges() > 16 || !(1..=6).contains(&g.d) || g.weights.iter().any(|w| !(w.is_finite() && *w > 0.0)) {
         fail!("bad-case", "case outside the property's domain");
     }
     with_d!(g.d, check_d(c, ctx))
